@@ -59,24 +59,34 @@ def trees():
     V_PROG = {"opts": [{"names": "f force", "flag": True}, {"names": "n", "flag": False}, {"names": "v verbose", "flag": True}], "args": ["X"]}
     t2["nodes"][3] = node(["e1"], "app a1 b1 e1", g.Seq(g.Optional(g.Opt("-v")), g.Optional(X)), prog=V_PROG)
     t2["nodes"][1] = node(["a1", "aa"], "app a1", g.Seq(g.Optional(g.Opt("-v")), X), subs=[2], prog=V_PROG)
-    return [t1, t2, t3, t4, t5]
+    # the version flag is an option of the application like any other: its spec may mention it, and only a FIRST-position occurrence
+    # is a version request
+    VV_PROG = {"opts": [{"names": "f force", "flag": True}, {"names": "n", "flag": False}, {"names": "v version", "flag": True}], "args": ["X"]}
+    t6 = {"version": "v version", "nodes": [
+        node(["app"], "app", g.Seq(g.Optional(F), g.Optional(g.Opt("-v"))), subs=[1], prog=VV_PROG),
+        node(["c1", "k1"], "app c1", g.Seq(g.Optional(F), g.Optional(X))),
+    ]}
+    return [t1, t2, t3, t4, t5, t6]
 
 
-def deep_tree():
-    """six levels, siblings declared after the path command at every level; explored with listed vectors (paths, help tokens)"""
+def deep_tree(bare=False):
+    """six levels, siblings declared after the path command at every level; explored with listed vectors (paths, help tokens).
+    bare: commands that declare nothing (so that one application object can be Run several times)"""
+    BARE = {"opts": [], "args": []}
     names = [["app"], ["p1", "pp"], ["p2"], ["p3"], ["p4"], ["p5"]]
     nodes = []
     path = ""
     for lvl, al in enumerate(names):
         path = (path + " " + al[0]).strip()
-        nodes.append(node(al, path, g.Seq(g.Optional(F), g.Optional(X)), subs=[]))
+        nodes.append(node(al, path, g.Seq(), subs=[], prog=BARE, spec="") if bare else node(al, path, g.Seq(g.Optional(F), g.Optional(X)), subs=[]))
     # chain + a sibling after each path command
     sib = []
     for lvl in range(1, len(names)):
         parent = lvl - 1
         nodes[parent]["subs"].append(lvl)
         sidx = len(nodes)
-        nodes.append(node(["q%d" % lvl], nodes[parent]["path"] + " q%d" % lvl, g.Seq(g.Optional(X)), subs=[]))
+        qp = nodes[parent]["path"] + " q%d" % lvl
+        nodes.append(node(["q%d" % lvl], qp, g.Seq(), subs=[], prog=BARE, spec="") if bare else node(["q%d" % lvl], qp, g.Seq(g.Optional(X)), subs=[]))
         nodes[parent]["subs"].append(sidx)
     vectors = []
     chain = [n[0] for n in names[1:]]
@@ -94,6 +104,9 @@ def deep_tree():
     for v in vectors:
         if v not in uniq:
             uniq.append(v)
+    if bare:
+        for n in nodes:
+            n["bare"] = True
     return {"version": "", "nodes": nodes, "vectors": uniq}
 
 
@@ -167,8 +180,9 @@ def predict(workdir, trs, alphabet, maxlen, policies, timeout=3000):
     return res, cases
 
 
-def strip_int(m):
-    return frozenset((k, v) for k, v in m if k != "O:-n")
+def strip_int(m, path=""):
+    """the Int option is a built-in variable, and the application's version flag is the library's own: neither is recorded"""
+    return frozenset((k, v) for k, v in m if k != "O:-n" and not (path == "app" and k == "O:-v"))
 
 
 def expected_log(path):
@@ -189,7 +203,7 @@ def judge(c, r):
             out.append(("routing", "hooks/actions ran %s, specification says %s" % (r["log"], expected_log(path))))
         for lv in c["levels"]:
             obs = frozenset((k, tuple(v)) for k, v in r["binds"].get(lv["path"], {}).items())
-            if obs not in set(strip_int(m) for m in lv["acc"]):
+            if obs not in set(strip_int(m, lv["path"]) for m in lv["acc"]):
                 out.append(("bindings", "level %r bound %s, not a derivation of its own tokens (%s)" % (lv["path"], sorted(obs), [sorted(strip_int(m)) for m in lv["acc"]][:3])))
         if not r["retnil"] or r["exits"] or r.get("panic"):
             out.append(("policy", "an accepted invocation must return nil without exit/panic: err=%r exits=%s panic=%r" % (r.get("err"), r["exits"], r.get("panic"))))
